@@ -126,6 +126,8 @@ pub enum FeOp {
 	LateBatch(usize),
 	/// a call whose future the application may drop (cancel) at any moment before it completes
 	AbandonCall,
+	/// `subscribe_to_method`: register for plain notifications of a method (nothing goes on the wire)
+	RegisterNotif,
 }
 
 #[derive(Clone, Debug, PartialEq)]
@@ -347,8 +349,12 @@ pub fn setup(cfg: &CliScenarioCfg) -> CliState {
 					let r: Result<BatchResponse<Value>, Error> = client.batch_request(b).await;
 					r.map(batch_summary).map_err(|e| err_str(&e))
 				}
-				FeOp::Subscribe | FeOp::SubscribeDrop => {
-					let r: Result<Subscription<Value>, Error> = client.subscribe("sub", rpc_params![i as u64], "unsub").await;
+				FeOp::Subscribe | FeOp::SubscribeDrop | FeOp::RegisterNotif => {
+					let r: Result<Subscription<Value>, Error> = if op == FeOp::RegisterNotif {
+						client.subscribe_to_method(&format!("evt{i}")).await
+					} else {
+						client.subscribe("sub", rpc_params![i as u64], "unsub").await
+					};
 					match r {
 						Ok(sub) if op == FeOp::SubscribeDrop => {
 							let kind = format!("{:?}", sub.kind());
@@ -468,6 +474,7 @@ pub fn wire_index_of(sent: &[String], op: &FeOp, i: usize) -> Option<usize> {
 			FeOp::Subscribe | FeOp::SubscribeDrop => v.get("method").and_then(|x| x.as_str()) == Some("sub") && v.get("params") == Some(&json!([i])),
 			FeOp::Notif => v.get("method").and_then(|x| x.as_str()) == Some("note") && v.get("params") == Some(&json!([i])),
 			FeOp::Call | FeOp::LateCall | FeOp::AbandonCall => v.get("method").and_then(|x| x.as_str()) == Some("m") && v.get("params") == Some(&json!([i])),
+			FeOp::RegisterNotif => false,
 		}
 	})
 }
